@@ -226,7 +226,7 @@ func (a *featAcc) merge(src map[string]int) {
 // Registry of checks.
 var Registry = map[string]func(*Env){}
 
-func monRoot() string { return mon.Root }
+func monRoot() string { return mon.Out }
 
 func globLogs(dir string) []string {
 	m, _ := filepath.Glob(filepath.Join(dir, "race*"))
